@@ -13,6 +13,7 @@ import (
 	"bytes"
 	"flag"
 	"fmt"
+	"go/format"
 	"os"
 	"os/exec"
 	"path/filepath"
@@ -213,5 +214,9 @@ func genVariant(tmpl *template.Template, pigeon, genRoot string, f pvcase.Flags)
 	if err != nil {
 		return err
 	}
-	return os.WriteFile(filepath.Join(dir, "host.go"), buf.Bytes(), 0o644)
+	src, err = format.Source(buf.Bytes())
+	if err != nil {
+		return fmt.Errorf("rendered host.go does not parse: %v", err)
+	}
+	return os.WriteFile(filepath.Join(dir, "host.go"), src, 0o644)
 }
